@@ -383,6 +383,7 @@ pub fn step_strategy(cfg: &Cfg, p: Profile) -> BoxedStrategy<Step> {
     ));
     v.push((w(wrap, 2), any::<u8>().prop_map(|fine| Step::BigJump { fine }).boxed()));
     v.push((w(cfg.big_jumps && cfg.start_tick >= (1 << 16), if wrap { 2 } else { 5 }), (3u8..10).prop_map(|before| Step::ToWrap { before }).boxed()));
+    v.push((w(cfg.timeout_ms <= 100 && cfg.policy == 0, if split { 5 } else { 2 }), (0..clients, 0..slots, k_strategy(), any::<u8>()).prop_map(|(client, slot, k, mask)| Step::TimeoutEpisode { client, slot, k, mask }).boxed()));
     v.push((w(cfg.noise, 4), (0..slots, any::<bool>(), any::<bool>()).prop_map(|(slot, on, sparse)| Step::Noise { slot, on, sparse }).boxed()));
     v.push((w(cfg.noise, 3), (0..clients, 0..slots, any::<bool>()).prop_map(|(client, slot, on)| Step::ClientNoise { client, slot, on }).boxed()));
     v.push((w(cfg.noise, 3), (0..slots, k_strategy()).prop_map(|(slot, k)| Step::Touch { slot, k }).boxed()));
